@@ -83,6 +83,31 @@ pub struct World {
   pub imports: Vec<(ModuleSpecifier, Vec<String>)>,
   pub kind: GraphKind,
   pub opts: Opts,
+  /// lockfile contents for remote entries: (entry, checksum matches the served bytes?)
+  pub lock: Vec<(usize, bool)>,
+  /// entries whose cached bytes were tampered with (a cache-bypassing reload serves the real bytes)
+  pub tampered: Vec<usize>,
+  pub has_locker: bool,
+}
+
+impl Default for World {
+  fn default() -> Self {
+    World {
+      specs: vec![],
+      resp: vec![],
+      roots: vec![],
+      imports: vec![],
+      kind: GraphKind::All,
+      opts: Opts::default(),
+      lock: vec![],
+      tampered: vec![],
+      has_locker: false,
+    }
+  }
+}
+
+pub fn sha256_hex(bytes: &[u8]) -> String {
+  deno_graph::source::LoaderChecksum::r#gen(bytes)
 }
 
 pub const EXTS: &[&str] = &[
@@ -266,6 +291,22 @@ impl World {
     }
   }
 
+  /// bytes served for entry `i`: the cache holds tampered bytes for tampered entries
+  pub fn served(&self, i: usize, reload: bool) -> Option<Vec<u8>> {
+    let mut c = self.content(i)?;
+    if self.tampered.contains(&i) && !reload {
+      c.extend(b"\n// tampered");
+    }
+    Some(c)
+  }
+
+  /// the checksum the lockfile holds for entry `i`
+  pub fn locked_checksum(&self, i: usize) -> Option<String> {
+    self.lock.iter().find(|(k, _)| *k == i).map(|(_, matching)| {
+      if *matching { sha256_hex(&self.content(i).unwrap_or_default()) } else { "0000000000000000000000000000000000000000000000000000000000000bad".to_string() }
+    })
+  }
+
   pub fn describe(&self) -> serde_json::Value {
     let mut entries = vec![];
     for (i, s) in self.specs.iter().enumerate() {
@@ -291,6 +332,9 @@ impl World {
       "roots": self.roots.iter().map(|r| self.specs[*r].as_str()).collect::<Vec<_>>(),
       "imports": self.imports.iter().map(|(r, l)| serde_json::json!({"referrer": r.as_str(), "imports": l})).collect::<Vec<_>>(),
       "opts": format!("{:?}", self.opts),
+      "lock": self.lock.iter().map(|(i, m)| format!("{} {}", self.specs[*i], if *m { "matching" } else { "mismatching" })).collect::<Vec<_>>(),
+      "tampered_cache": self.tampered.iter().map(|i| self.specs[*i].to_string()).collect::<Vec<_>>(),
+      "locker": self.has_locker,
       "universe": entries,
     })
   }
@@ -544,7 +588,7 @@ pub fn gen_world(rng: &mut Rng, cfg: &GenCfg) -> World {
     unstable_css: rng.chance(1, 4),
     unstable_config: rng.chance(1, 6),
   };
-  World { specs, resp, roots, imports, kind, opts }
+  World { specs, resp, roots, imports, kind, opts, ..Default::default() }
 }
 
 /// the `type` attribute every importer uses for a target (the proviso of C01/C17/C19)
@@ -741,6 +785,15 @@ impl<'w> ScriptedLoader<'w> {
   }
 
   pub fn respond(&self, specifier: &ModuleSpecifier) -> Result<Option<LoadResponse>, LoadError> {
+    self.respond_with(specifier, CacheSetting::Use, None)
+  }
+
+  pub fn respond_with(
+    &self,
+    specifier: &ModuleSpecifier,
+    cache_setting: CacheSetting,
+    checksum: Option<&str>,
+  ) -> Result<Option<LoadResponse>, LoadError> {
     if specifier.scheme() == "data" {
       return deno_graph::source::load_data_url(specifier).map_err(|e| other_load_error(&e.to_string()));
     }
@@ -749,12 +802,21 @@ impl<'w> ScriptedLoader<'w> {
     };
     let r = &self.world.resp[i];
     match r {
-      Resp::Module { final_spec, headers, .. } => Ok(Some(LoadResponse::Module {
-        content: Arc::from(self.world.content(i).unwrap()),
+      Resp::Module { final_spec, headers, .. } => {
+        let content = self.world.served(i, cache_setting == CacheSetting::Reload).unwrap();
+        if let Some(c) = checksum {
+          let actual = sha256_hex(&content);
+          if actual != c {
+            return Err(LoadError::ChecksumIntegrity(deno_graph::source::ChecksumIntegrityError { actual, expected: c.to_string() }));
+          }
+        }
+        Ok(Some(LoadResponse::Module {
+        content: Arc::from(content),
         mtime: None,
         specifier: self.world.specs[*final_spec].clone(),
         maybe_headers: headers.as_ref().map(|h| h.iter().cloned().collect()),
-      })),
+      }))
+      }
       Resp::Redirect(t) => Ok(Some(LoadResponse::Redirect { specifier: self.world.specs[*t].clone() })),
       Resp::External(t) => Ok(Some(LoadResponse::External { specifier: self.world.specs[*t].clone() })),
       Resp::Missing => Ok(None),
@@ -788,7 +850,8 @@ impl Loader for ScriptedLoader<'_> {
       in_dynamic_branch: options.in_dynamic_branch,
       was_dynamic_root: options.was_dynamic_root,
     });
-    let r = self.respond(specifier);
+    let last = self.log.borrow().last().cloned().unwrap();
+    let r = self.respond_with(specifier, options.cache_setting, last.checksum.as_deref());
     Box::pin(async move { r })
   }
 
@@ -808,7 +871,8 @@ impl Loader for ScriptedLoader<'_> {
       in_dynamic_branch: options.in_dynamic_branch,
       was_dynamic_root: options.was_dynamic_root,
     });
-    let r = self.respond(specifier).map(|v| {
+    let last = self.log.borrow().last().cloned().unwrap();
+    let r = self.respond_with(specifier, options.cache_setting, last.checksum.as_deref()).map(|v| {
       v.map(|r| match r {
         LoadResponse::Redirect { specifier } => deno_graph::source::CacheResponse::Redirect { specifier },
         LoadResponse::External { .. } | LoadResponse::Module { .. } => deno_graph::source::CacheResponse::Cached,
